@@ -155,7 +155,18 @@ impl PointG1 {
     /// Encode to hexadecimal format
     #[allow(unused)]
     pub fn to_string(&self) -> ClResult<String> {
-        Ok(self.point.to_hex())
+        Ok(self.canonical().to_hex())
+    }
+
+    /// The identity has many representations (any (0 : y : 0), coordinates left unreduced by
+    /// arithmetic): it is written in the one `inf()` produces, which is also what decoding
+    /// returns, so that a decoded value serialises to the same document again.
+    fn canonical(&self) -> ECP {
+        let mut point = self.point;
+        if point.is_infinity() {
+            point.inf();
+        }
+        point
     }
 
     /// Decode from hexadecimal format
@@ -188,7 +199,7 @@ impl PointG1 {
     /// Encode to binary format (big-endian)
     pub fn to_bytes(&self) -> ClResult<Vec<u8>> {
         let mut vec = vec![0u8; Self::BYTES_REPR_SIZE];
-        self.point.tobytes(&mut vec, false);
+        self.canonical().tobytes(&mut vec, false);
         Ok(vec)
     }
 
@@ -319,7 +330,16 @@ impl PointG2 {
 
     /// Encode to hexadecimal format
     pub fn to_string(&self) -> ClResult<String> {
-        Ok(self.point.to_hex())
+        Ok(self.canonical().to_hex())
+    }
+
+    /// See `PointG1::canonical`
+    fn canonical(&self) -> ECP2 {
+        let mut point = self.point;
+        if point.is_infinity() {
+            point.inf();
+        }
+        point
     }
 
     /// Decode from hexadecimal format
@@ -350,7 +370,7 @@ impl PointG2 {
     /// Encode to binary format (big-endian)
     pub fn to_bytes(&self) -> ClResult<Vec<u8>> {
         let mut vec = vec![0u8; Self::BYTES_REPR_SIZE];
-        self.point.tobytes(&mut vec);
+        self.canonical().tobytes(&mut vec);
         Ok(vec)
     }
 
